@@ -164,18 +164,18 @@ int main(int argc, char ** argv) {
         } else {
             unsigned s = rng();
             bool integer = (s % 3 == 0);
-            bool boolean = (r % 2 == 1);   // every other round: a propositional instance with many conflicts
+            bool boolean = (r % 3 != 0);   // two rounds of three: a propositional instance with many conflicts
             int nv = 6 + s % 5, nc = 40 + s % 60;
             sstat ref;
             long refUs;
             {
-                Instance in = boolean ? buildBool(s, 140 + (int)(s % 50)) : build(s, integer, nv, nc, r % 2 == 0);
+                Instance in = boolean ? buildBool(s, 200 + (int)(s % 60)) : build(s, integer, nv, nc, r % 2 == 0);
                 auto t0 = std::chrono::steady_clock::now();
                 ref = in.solver->check();
                 refUs = std::chrono::duration_cast<std::chrono::microseconds>(std::chrono::steady_clock::now() - t0).count();
             }
             resetGlobalStop();
-            Instance in = boolean ? buildBool(s, 140 + (int)(s % 50)) : build(s, integer, nv, nc, r % 2 == 0);
+            Instance in = boolean ? buildBool(s, 200 + (int)(s % 60)) : build(s, integer, nv, nc, r % 2 == 0);
             sstat got = s_Error;
             int delayUs = (int)(rng() % (unsigned)(refUs * 3 / 2 + 2));   // anywhere from before the start to after the end of the solving
             std::thread worker([&] { got = in.solver->check(); });
